@@ -326,7 +326,7 @@ fn base_case(g: &Named, sub: Vec<Word>, variant: u8) -> CosetCase {
     CosetCase { name: g.name.clone(), nr_gens: g.pres.nr_gens, rels: g.pres.rels.clone(), order: g.order.unwrap_or(0), index: 0, sub, variant }
 }
 
-fn lattice_cases() -> Vec<CosetCase> {
+fn lattice_cases(thorough: bool) -> Vec<CosetCase> {
     // G = Z^n, H generated by the rows of an integer matrix: index = |det|
     let mut out = vec![];
     let z2 = infinite_groups().into_iter().find(|g| g.name == "Z^2").unwrap();
@@ -353,6 +353,17 @@ fn lattice_cases() -> Vec<CosetCase> {
                 }
             }
         }
+    }
+    // enumerations that need more than 2^16 rows (below the crate's limit of 100 000)
+    for (a, d) in [(256i64, 258i64), (2, 33_000)].into_iter().take(if thorough { 2 } else { 1 }) {
+        let mut c = base_case(&z2, vec![word(&[a, 0]), word(&[0, d])], 0);
+        c.index = (a * d) as u64;
+        out.push(c);
+    }
+    if thorough {
+        let mut c = base_case(&z3, vec![word(&[41, 0, 0]), word(&[0, 41, 0]), word(&[0, 0, 40])], 0);
+        c.index = 67_240;
+        out.push(c);
     }
     for (m, det) in [([[2i64, 0, 0], [0, 2, 0], [0, 0, 2]], 8u64), ([[1, 1, 0], [0, 2, 1], [1, 0, 3]], 7), ([[2, 1, 0], [0, 1, 1], [1, 0, 2]], 5), ([[3, 0, 0], [1, 1, 0], [0, 1, 2]], 6)] {
         let mut c = base_case(&z3, m.iter().map(|r| word(r)).collect(), 0);
@@ -389,7 +400,7 @@ pub fn run(ctx: &mut Ctx) {
             }
         }
     }
-    cases.extend(lattice_cases());
+    cases.extend(lattice_cases(t == Tier::Thorough));
     let n = cases.len();
     ctx.run_par(&SUB_COSET, cases, Some(&format!("{} (group, subgroup) pairs: every corpus group of order <= {} x {{trivial, whole group, all sets of <= 2 reduced words of length <= 2 (1/7 of the pairs for orders > 400)}}, and all 2x2 sublattices of Z^2 with entries in -3..3", n, max_order)));
 
